@@ -18,11 +18,15 @@ variable {V : Type}
 
 /-- **The measure (stream.Merge).** Every step other than `cCall` / `cClose` strictly decreases `nuU`
 — goroutine steps, the consumer's `select` arms, the statements of `Close`, and every return of an
-input's `Next` — in every state; in states reachable from `Merge(in₀,…,in_{k-1})`, `nuU ≤ 10·k + 5`. -/
+input's `Next` — in every state whose context is the one of the code read on this run (`origin = ctxOrigin`;
+the proof re-derives `ctxOrigin = plainCancel` from the regenerated facts: the environment label `ctxEnds`,
+"the context ends without `cancel()`", which would not decrease the measure, is dead); in states reachable
+from `Merge(in₀,…,in_{k-1})`, `nuU ≤ 10·k + 5`. -/
 theorem streamMerge_measure (k : Nat) :
-    (∀ (s s' : St V) l, step s l = some s' → isCall l = false → nuU s' < nuU s) ∧
+    (∀ (s s' : St V) l, s.origin = ctxOrigin → step s l = some s' → isCall l = false → nuU s' < nuU s) ∧
     (∀ s : St V, Reach (init V k) s → nuU s ≤ 10 * k + 5) :=
-  ⟨fun _ _ _ h hl => nuU_decreases h hl, fun _ h => nuU_le (reach_invA h) (reach_invD h)⟩
+  have ho : ctxOrigin = .plainCancel := by decide
+  ⟨fun _ _ _ hs h hl => nuU_decreases (hs.trans ho) h hl, fun _ h => nuU_le (reach_invA h) (reach_invD h)⟩
 
 /-- non-vacuity: the measure along a run of a 2-input merge — it falls with every step, including the
 inputs' returns, except where the consumer calls `Next` -/
@@ -39,20 +43,23 @@ theorem streamMerge_internal_steps_terminate (k : Nat) (s : St V) (h : Reach (in
     (∀ ls s', (∀ l ∈ ls, isCall l = false) → run s ls = some s' → ls.length + nuU s' ≤ nuU s ∧ ls.length ≤ 10 * k + 5) ∧
     (∀ l, l ∈ internalLabels s → isCall l = false) ∧
     ¬ ∃ σ : Nat → St V, σ 0 = s ∧ ∀ n, ∃ l, isCall l = false ∧ step (σ n) l = some (σ (n + 1)) := by
+  have ho : ctxOrigin = .plainCancel := by decide
+  have hso : s.origin = .plainCancel := (reach_invA h).org.trans ho
   have hb := (streamMerge_measure (V := V) k).2 s h
   refine ⟨?_, fun l hl => isCall_of_internal hl, ?_⟩
   · intro ls s' hl hr
-    have := run_nuU hr hl
+    have := run_nuU hso hr hl
     exact ⟨this, by omega⟩
   · rintro ⟨σ, h0, hσ⟩
-    have key : ∀ n, n + nuU (σ n) ≤ nuU (σ 0) := by
+    have key : ∀ n, (σ n).origin = .plainCancel ∧ n + nuU (σ n) ≤ nuU (σ 0) := by
       intro n
       induction n with
-      | zero => simp
+      | zero => exact ⟨h0 ▸ hso, by simp⟩
       | succ n ih =>
         obtain ⟨l, hl, hst⟩ := hσ n
-        have := nuU_decreases hst hl
-        omega
+        have := nuU_decreases ih.1 hst hl
+        exact ⟨(step_origin hst).trans ih.1, by omega⟩
+    have key : ∀ n, n + nuU (σ n) ≤ nuU (σ 0) := fun n => (key n).2
     have := key (nuU (σ 0) + 1)
     omega
 
@@ -66,12 +73,20 @@ example : ∃ s s' : St (Option Int), Reach (init (Option Int) 2) s ∧
 /-- **A pending `Next` never waits on the library (stream.Merge).** In every reachable state in which
 the consumer is inside `Next` and no step needing no further input is enabled (`internalLabels`: the
 goroutines' steps, the consumer's arms, an input honouring a cancelled context), some input's `Next` is in
-progress and the shared context has not been cancelled — the environment owes that return. (With `Close`
-pending there is no quiescent state short of its return: `streamMerge_goroutines_finish_after_close`.) -/
+progress, the shared context has not been cancelled — the environment owes that return — and that context
+cannot end on its own however long the input stays silent (`ctxEnds` is not enabled: `ctxOrigin = plainCancel`,
+re-derived here from the regenerated facts), so the waiting `Next` neither fails nor ends while inputs are
+idle. (With `Close` pending there is no quiescent state short of its return:
+`streamMerge_goroutines_finish_after_close`.) -/
 theorem streamMerge_quiescent_next_served (k : Nat) (s : St V) (h : Reach (init V k) s) (live : Bool)
     (hc : s.cpc = .inNext live) (hq : QuiescentM s) :
-    ∃ (i : Nat) (g : G V), s.gs[i]? = some g ∧ g.pc = GPc.next ∧ s.cancelled = false :=
-  quiescent_next_waits_for_input (reach_invA h) (reach_invC h) (reach_invL h) hc hq
+    (∃ (i : Nat) (g : G V), s.gs[i]? = some g ∧ g.pc = GPc.next ∧ s.cancelled = false) ∧
+    step s .ctxEnds = none := by
+  have ho : ctxOrigin = .plainCancel := by decide
+  refine ⟨quiescent_next_waits_for_input (reach_invA h) (reach_invC h) (reach_invL h) hc hq, ?_⟩
+  cases hs : step s .ctxEnds with
+  | none => rfl
+  | some s' => exact (no_ctxEnds ((reach_invA h).org.trans ho) hs).elim
 
 /-- non-vacuity: input 1 has ended and its goroutine finished, the consumer waits in `Next`, nothing
 internal is enabled: input 0's `Next` is what is owed -/
@@ -95,10 +110,12 @@ theorem streamMerge_next_terminates (k : Nat) (s : St V) (h : Reach (init V k) s
       (∀ g, g ∈ s'.gs → g.pc ≠ .next) → s'.cpc = .idle ∧ ∃ r, s'.results = s.results ++ [r]) ∧
     (∃ ls s', (∀ l ∈ ls, isCall l = false) ∧ run s ls = some s' ∧ ls.length ≤ nuU s ∧
       s'.cpc = .idle ∧ ∃ r, s'.results = s.results ++ [r]) := by
+  have ho : ctxOrigin = .plainCancel := by decide
+  have hso : s.origin = .plainCancel := (reach_invA h).org.trans ho
   have h0 : NextOutcome s s := Or.inl ⟨⟨live, hc⟩, rfl⟩
   refine ⟨?_, (streamMerge_measure (V := V) k).2 s h, ?_, ?_⟩
   · intro ls s' hl hr
-    exact ⟨run_nuU hr hl, nextOutcome_run h0 hl hr⟩
+    exact ⟨run_nuU hso hr hl, nextOutcome_run h0 hl hr⟩
   · intro ls s' hl hr hq hnone
     rcases nextOutcome_run h0 hl hr with ⟨⟨live', hp⟩, _⟩ | hret
     · exfalso
@@ -106,8 +123,8 @@ theorem streamMerge_next_terminates (k : Nat) (s : St V) (h : Reach (init V k) s
       obtain ⟨i, g, hg, hp', _⟩ := quiescent_next_waits_for_input (reach_invA hr') (reach_invC hr') (reach_invL hr') hp hq
       exact hnone g (List.mem_of_getElem? hg) hp'
     · exact hret
-  · obtain ⟨ls, s', h1, h2, h3⟩ := exists_next_run s (nuU s) s h h0 (Nat.le_refl _)
-    have := run_nuU h2 h1
+  · obtain ⟨ls, s', h1, h2, h3⟩ := exists_next_run ho s (nuU s) s h h0 (Nat.le_refl _)
+    have := run_nuU hso h2 h1
     exact ⟨ls, s', h1, h2, by omega, h3⟩
 
 /-- non-vacuity: the consumer waits in `Next` with both inputs silent; input 1 returns an item and the
